@@ -160,3 +160,126 @@ Proof.
 Qed.
 End FirstMax.
 Print Assumptions first_max_spec.
+
+(* ---------- biggest transactions: first one with the strictly largest key, over all transactions of the range in chain order ---------- *)
+Lemma on_tx_big h a t :
+  a_bigv (on_tx h a t) = (if better (tx_value t) (a_bigv a) then Some (tx_value t, h, t_id t) else a_bigv a) /\
+  a_bigs (on_tx h a t) = (if better (t_size t) (a_bigs a) then Some (t_size t, h, t_id t) else a_bigs a).
+Proof. unfold on_tx. destruct (fold_left _ (t_outs t) _) as [[ty fi] i]. cbn. split; reflexivity. Qed.
+Lemma on_block_big a b : a_bigv (on_block a b) = a_bigv (fold_left (on_tx (k_height b)) (k_txs b) a) /\ a_bigs (on_block a b) = a_bigs (fold_left (on_tx (k_height b)) (k_txs b) a).
+Proof. split; reflexivity. Qed.
+
+Definition rec_of (e:N * (N * stx)) : N * N * bytes := (fst e, fst (snd e), t_id (snd (snd e))).
+Lemma big_fold (key:stx -> N) (proj:acc -> option (N * N * bytes)) :
+  (forall h a t, proj (on_tx h a t) = if better (key t) (proj a) then Some (key t, h, t_id t) else proj a) ->
+  (forall a b, proj (on_block a b) = proj (fold_left (on_tx (k_height b)) (k_txs b) a)) ->
+  forall bs a cur, proj a = option_map rec_of cur ->
+  proj (fold_left on_block bs a) = option_map rec_of (fold_left (upd (N * stx) (fun ht => key (snd ht))) (all_txs bs) cur).
+Proof.
+  intros Htx Hblk.
+  assert (T : forall h txs a cur, proj a = option_map rec_of cur ->
+            proj (fold_left (on_tx h) txs a) = option_map rec_of (fold_left (upd (N * stx) (fun ht => key (snd ht))) (map (fun t => (h, t)) txs) cur)).
+  { intros h txs. induction txs as [|t r IH]; intros a cur H; [exact H|]. cbn [fold_left map]. apply IH. rewrite Htx, H.
+    destruct cur as [[k [h0 t0]]|]; cbn [option_map rec_of better upd fst snd]; [|reflexivity]. destruct (k <? key t); reflexivity. }
+  induction bs as [|b r IH]; intros a cur H; [exact H|]. cbn [fold_left all_txs flat_map]. rewrite fold_left_app. apply IH.
+  rewrite Hblk. now apply T.
+Qed.
+(* C15: biggest value / biggest size transaction = first maximum over all transactions of the range (the record keeps value, height, txid) *)
+Theorem biggest_value_spec bs : a_bigv (run bs) = option_map rec_of (fold_left (upd (N * stx) (fun ht => tx_value (snd ht))) (all_txs bs) None).
+Proof. unfold run. apply (big_fold tx_value a_bigv); [intros; apply on_tx_big|intros; apply on_block_big|reflexivity]. Qed.
+Theorem biggest_size_spec bs : a_bigs (run bs) = option_map rec_of (fold_left (upd (N * stx) (fun ht => t_size (snd ht))) (all_txs bs) None).
+Proof. unfold run. apply (big_fold t_size a_bigs); [intros; apply on_tx_big|intros; apply on_block_big|reflexivity]. Qed.
+
+(* ---------- per script type: number of outputs and first occurrence ---------- *)
+Definition all_outs (bs:list sblock) : list (N * (N * bytes * N)) :=   (* type tag, (height, txid, output index) in chain order *)
+  flat_map (fun b => flat_map (fun t => map (fun io => (snd (snd io), (k_height b, t_id t, fst io))) (combine (map N.of_nat (seq 0 (length (t_outs t)))) (t_outs t))) (k_txs b)) bs.
+Definition count_tag (p:N) (l:list (N * (N * bytes * N))) : N := N.of_nat (length (filter (fun e => fst e =? p) l)).
+Definition first_tag (p:N) (l:list (N * (N * bytes * N))) : option (N * bytes * N) := option_map snd (find (fun e => fst e =? p) l).
+
+Lemma lookup_bump p q l : lookup p (bump q l) = if q =? p then Some (match lookup p l with Some c => c + 1 | None => 1 end) else lookup p l.
+Proof.
+  induction l as [|[q' c] r IH]; cbn [bump lookup].
+  - destruct (q =? p); reflexivity.
+  - destruct (N.eqb_spec q' q) as [->|Hne]; cbn [lookup].
+    + destruct (q =? p); reflexivity.
+    + rewrite IH. destruct (N.eqb_spec q' p) as [->|Hne2]; [|reflexivity]. destruct (N.eqb_spec q p); [congruence|reflexivity].
+Qed.
+Lemma lookup_note_first p q w l : lookup p (note_first q w l) = match lookup p l with Some x => Some x | None => if q =? p then Some w else None end.
+Proof.
+  unfold note_first. destruct (lookup q l) eqn:E.
+  - destruct (lookup p l) eqn:E2; [reflexivity|]. destruct (N.eqb_spec q p) as [->|]; [congruence|reflexivity].
+  - induction l as [|[q' x] r IH]; cbn [app lookup] in *.
+    + destruct (q =? p); reflexivity.
+    + destruct (N.eqb_spec q' q) as [->|Hne]; [discriminate|]. destruct (q' =? p); [reflexivity|]. now apply IH.
+Qed.
+
+Definition types_inv (a:acc) (l:list (N * (N * bytes * N))) : Prop :=
+  forall p, lookup p (a_types a) = (if count_tag p l =? 0 then None else Some (count_tag p l)) /\ lookup p (a_first a) = first_tag p l.
+Lemma count_tag_app p a b : count_tag p (a ++ b) = count_tag p a + count_tag p b.
+Proof. unfold count_tag. rewrite filter_app, app_length. lia. Qed.
+Lemma first_tag_app p a b : first_tag p (a ++ b) = match first_tag p a with Some x => Some x | None => first_tag p b end.
+Proof. unfold first_tag. induction a as [|e r IH]; [reflexivity|]. cbn [app find]. destruct (fst e =? p); [reflexivity|exact IH]. Qed.
+
+Lemma count_tag_single p q w : count_tag p [(q, w)] = if q =? p then 1 else 0.
+Proof. unfold count_tag. cbn [filter fst]. destruct (q =? p); reflexivity. Qed.
+Lemma first_tag_single p q w : first_tag p [(q, w)] = if q =? p then Some w else None.
+Proof. unfold first_tag. cbn [find fst]. destruct (q =? p); reflexivity. Qed.
+Lemma outs_step h id : forall (outs:list (N * N)) ty fi i l,
+  (forall p, lookup p ty = (if count_tag p l =? 0 then None else Some (count_tag p l)) /\ lookup p fi = first_tag p l) ->
+  let '(ty', fi', _) := fold_left (fun '(ty, fi, i) o => (bump (snd o) ty, note_first (snd o) (h, id, i) fi, i + 1)) outs (ty, fi, i) in
+  forall p, lookup p ty' = (if count_tag p (l ++ map (fun io => (snd (snd io), (h, id, fst io))) (combine (map (fun k => i + N.of_nat k) (seq 0 (length outs))) outs)) =? 0 then None
+                            else Some (count_tag p (l ++ map (fun io => (snd (snd io), (h, id, fst io))) (combine (map (fun k => i + N.of_nat k) (seq 0 (length outs))) outs)))) /\
+            lookup p fi' = first_tag p (l ++ map (fun io => (snd (snd io), (h, id, fst io))) (combine (map (fun k => i + N.of_nat k) (seq 0 (length outs))) outs)).
+Proof.
+  induction outs as [|o r IH]; intros ty fi i l H.
+  - cbn. intro p. rewrite app_nil_r. apply H.
+  - cbn [fold_left length seq map combine].
+    specialize (IH (bump (snd o) ty) (note_first (snd o) (h, id, i) fi) (i + 1) (l ++ [(snd o, (h, id, i))])).
+    assert (H' : forall p, lookup p (bump (snd o) ty) = (if count_tag p (l ++ [(snd o, (h, id, i))]) =? 0 then None else Some (count_tag p (l ++ [(snd o, (h, id, i))]))) /\
+                         lookup p (note_first (snd o) (h, id, i) fi) = first_tag p (l ++ [(snd o, (h, id, i))])).
+    { intro p. destruct (H p) as [Hc Hf]. rewrite lookup_bump, lookup_note_first, Hc, Hf, count_tag_app, first_tag_app, count_tag_single, first_tag_single.
+      destruct (N.eqb_spec (snd o) p) as [Ep|Hne].
+      - split; [destruct (count_tag p l =? 0) eqn:E0; [apply N.eqb_eq in E0; rewrite E0; reflexivity|replace (count_tag p l + 1 =? 0) with false by lia; reflexivity]|].
+        destruct (first_tag p l); reflexivity.
+      - split; [replace (count_tag p l + 0) with (count_tag p l) by lia; reflexivity|destruct (first_tag p l); reflexivity]. }
+    specialize (IH H'). destruct (fold_left _ r _) as [[ty' fi'] i']. intro p. specialize (IH p).
+    replace (i + N.of_nat 0) with i by lia.
+    assert (E : map (fun k => i + N.of_nat k) (seq 1 (length r)) = map (fun k => i + 1 + N.of_nat k) (seq 0 (length r))).
+    { rewrite <- seq_shift, map_map. apply map_ext. intro k. lia. }
+    rewrite E. cbn [map fst snd]. rewrite <- app_assoc in IH. exact IH.
+Qed.
+
+Definition outs_of (h:N) (t:stx) : list (N * (N * bytes * N)) :=
+  map (fun io => (snd (snd io), (h, t_id t, fst io))) (combine (map N.of_nat (seq 0 (length (t_outs t)))) (t_outs t)).
+Lemma on_tx_types h a t l : types_inv a l -> types_inv (on_tx h a t) (l ++ outs_of h t).
+Proof.
+  intro H. pose proof (outs_step h (t_id t) (t_outs t) (a_types a) (a_first a) 0 l H) as S.
+  unfold types_inv, on_tx. destruct (fold_left _ (t_outs t) _) as [[ty fi] i]. cbn [a_types a_first].
+  unfold outs_of. replace (map N.of_nat (seq 0 (length (t_outs t)))) with (map (fun k => 0 + N.of_nat k) (seq 0 (length (t_outs t)))) by (apply map_ext; intro; lia).
+  exact S.
+Qed.
+Lemma txs_types h : forall txs a l, types_inv a l -> types_inv (fold_left (on_tx h) txs a) (l ++ flat_map (outs_of h) txs).
+Proof.
+  induction txs as [|t r IH]; intros a l H; [cbn; now rewrite app_nil_r|]. cbn [fold_left flat_map]. rewrite app_assoc. apply IH. now apply on_tx_types.
+Qed.
+Lemma all_outs_cons b r : all_outs (b :: r) = flat_map (outs_of (k_height b)) (k_txs b) ++ all_outs r.
+Proof. reflexivity. Qed.
+(* C15: per script type the number of outputs and the first occurrence (height, txid, output index), over all outputs of the range in chain order *)
+Theorem types_spec bs : forall p,
+  lookup p (a_types (run bs)) = (if count_tag p (all_outs bs) =? 0 then None else Some (count_tag p (all_outs bs))) /\
+  lookup p (a_first (run bs)) = first_tag p (all_outs bs).
+Proof.
+  unfold run. assert (G : forall bs a l, types_inv a l -> types_inv (fold_left on_block bs a) (l ++ all_outs bs)).
+  { clear bs. induction bs as [|b r IH]; intros a l H; [cbn; now rewrite app_nil_r|]. cbn [fold_left]. rewrite all_outs_cons, app_assoc. apply IH.
+    pose proof (txs_types (k_height b) (k_txs b) a l H) as T. unfold types_inv in *. intro p. specialize (T p). unfold on_block. cbn [a_types a_first]. exact T. }
+  apply (G bs acc0 []). intro p. split; reflexivity.
+Qed.
+(* the share printed next to each type is count / total outputs: the denominator is the output counter *)
+Print Assumptions types_spec. Print Assumptions biggest_value_spec.
+(* the base reward: 50 coins halved every 210000 heights (integer division), zero from the 64th halving *)
+Theorem base_reward_spec h : base_reward h = if 64 <=? h / 210000 then 0 else 5000000000 / 2 ^ (h / 210000).
+Proof. unfold base_reward. change Published.halving_interval with 210000. change Published.halving_cap with 64. change Published.reward with 5000000000.
+  destruct (64 <=? h / 210000); [reflexivity|]. apply N.shiftr_div_pow2. Qed.
+(* get_mean: the exact rational sum / count *)
+Theorem mean_spec l : mean l = (sum (fun x => x) l, N.of_nat (length l)).
+Proof. unfold mean. f_equal. rewrite <- (N.add_0_l (sum (fun x => x) l)). rewrite <- fold_add_sum. reflexivity. Qed.
